@@ -11,21 +11,13 @@ Open Scope Z_scope.
 (* 1. state = function of the history rows                             *)
 (* ------------------------------------------------------------------ *)
 
-(* what the window check reads off a history row that was produced by an event:
-   an evaluation row is Pending/Firing iff its outcome was true; a configuration
-   update row (state Inactive) reads as "did not hold"; Silence writes no row *)
-Fixpoint eff (l : list event) : list bool :=
-  match l with
-  | [] => []
-  | Eval _ m :: r => m :: eff r
-  | Update _ _ :: r => false :: eff r
-  | Silence _ :: r => eff r
-  end.
-
+(* the evaluation rows of the history (newest first) mirror the evaluation outcomes:
+   a row is Pending/Firing iff its outcome was true.  Config-change rows are not read. *)
 Definition rows_match (h : history) (os : list bool) : Prop :=
-  Forall2 (fun r o => pending_or_firing r = o) h os.
+  Forall2 (fun r o => pending_or_firing r = o) (eval_rows h) os.
 
-Lemma window_ok_all_held h os : rows_match h os -> forall n, window_ok n h = all_held n os.
+Lemma window_ok_all_held l os : Forall2 (fun r o => pending_or_firing r = o) l os ->
+  forall n, window_ok n l = all_held n os.
 Proof.
   induction 1 as [|r o h os Hro _ IH]; intros n.
   - destruct n; reflexivity.
@@ -39,13 +31,7 @@ Proof.
   destruct e; cbn [app]; rewrite IH; reflexivity.
 Qed.
 
-Lemma eff_app a b : eff (a ++ b) = eff a ++ eff b.
-Proof.
-  induction a as [|e a IH]; cbn [app eff]; [reflexivity|].
-  destruct e; cbn [app]; rewrite IH; reflexivity.
-Qed.
-
-(* the state the code computes for an outcome, given the rows it reads *)
+(* the state the code computes for an outcome, given the outcomes of the earlier evaluations *)
 Definition code_state (n : N) (m : bool) (ros : list bool) : astate :=
   if m then
     (if (n =? 0)%N then Pending else if (n =? 1)%N then Firing
@@ -62,6 +48,7 @@ Proof.
   intros Hr. unfold handle_condition. cbn [fst a_state a_hist a_window a_interval].
   unfold code_state, should_fire. cbn [pending_or_firing negb].
   rewrite (window_ok_all_held _ _ Hr).
+  unfold rows_match. cbn [eval_rows].
   destruct m.
   - destruct (a_window a / a_interval a =? 0)%N;
       [|destruct (a_window a / a_interval a =? 1)%N;
@@ -70,7 +57,7 @@ Proof.
   - split; [reflexivity|split; [constructor; [reflexivity|exact Hr]|split; reflexivity]].
 Qed.
 
-(* code_state against the specification when the rows are the outcomes *)
+(* code_state against the specification *)
 Lemma code_state_spec n m os : code_state n m os = spec_state n (m :: os).
 Proof.
   unfold code_state, spec_state. destruct m; [|reflexivity].
@@ -83,12 +70,12 @@ Qed.
 
 Lemma step_rows d a e ros :
   rows_match (a_hist a) ros ->
-  rows_match (a_hist (fst (step d a e))) (eff [e] ++ ros).
+  rows_match (a_hist (fst (step d a e))) (outcomes [e] ++ ros).
 Proof.
-  intros Hr. destruct e as [t m|w i|mn]; cbn [step eff app].
+  intros Hr. destruct e as [t m|w i|mn]; cbn [step outcomes app].
   - pose proof (handle_condition_state t m d a ros Hr) as H. cbn zeta in H.
     destruct (handle_condition t m d a) as [a' s]. cbn [fst] in *. apply H.
-  - cbn [fst a_hist]. constructor; [reflexivity|exact Hr].
+  - cbn [fst a_hist]. exact Hr.
   - cbn [fst a_hist]. exact Hr.
 Qed.
 
@@ -100,46 +87,15 @@ Proof.
   destruct (step d a e) as [a' s]. apply IH.
 Qed.
 
-(* the history rows after any event list mirror the events (newest first) *)
+(* the evaluation rows after any event list mirror the outcomes (newest first) *)
 Lemma run_rows d evs : forall a sent ros,
   rows_match (a_hist a) ros ->
-  rows_match (a_hist (fst (run_from d evs a sent))) (eff (rev evs) ++ ros).
+  rows_match (a_hist (fst (run_from d evs a sent))) (outcomes (rev evs) ++ ros).
 Proof.
-  induction evs as [|e r IH]; intros a sent ros Hr; cbn [run_from rev fst eff app]; [exact Hr|].
+  induction evs as [|e r IH]; intros a sent ros Hr; cbn [run_from rev fst outcomes app]; [exact Hr|].
   pose proof (step_rows d a e ros Hr) as Hs.
   destruct (step d a e) as [a' s]. cbn [fst] in Hs.
-  rewrite eff_app, <- app_assoc. apply IH. exact Hs.
-Qed.
-
-(* GENERAL: after an evaluation, the state is the code's function of the outcome and of the
-   rows of all earlier events (configuration updates read as "did not hold") *)
-Lemma state_after_eval d evs t m w i cd :
-  let a0 := fst (run d evs (new_alert w i cd)) in
-  let a := fst (run d (evs ++ [Eval t m]) (new_alert w i cd)) in
-  a_state a = code_state (a_window a0 / a_interval a0) m (eff (rev evs))
-  /\ a_window a = a_window a0 /\ a_interval a = a_interval a0.
-Proof.
-  cbn zeta. unfold run. rewrite run_from_app.
-  pose proof (run_rows d evs (new_alert w i cd) [] [] (Forall2_nil _)) as Hr.
-  rewrite app_nil_r in Hr.
-  set (a0 := fst (run_from d evs (new_alert w i cd) [])) in *.
-  cbn [run_from step].
-  pose proof (handle_condition_state t m d a0 _ Hr) as H. cbn zeta in H.
-  destruct (handle_condition t m d a0) as [a' s]. cbn [fst] in *.
-  destruct H as (H1 & _ & H3 & H4). auto.
-Qed.
-
-Lemma no_update_all_held l : forall k,
-  no_update_in_window k l = true -> all_held k (eff l) = all_held k (outcomes l).
-Proof.
-  induction l as [|e l IH]; intros k H; [destruct k; reflexivity|].
-  destruct e as [t m|w i|mn]; cbn [eff outcomes no_update_in_window all_held] in *.
-  - destruct (k =? 0)%N; [reflexivity|]. rewrite IH by exact H. reflexivity.
-  - destruct (k =? 0)%N eqn:E; [|discriminate].
-    apply N.eqb_eq in E. subst k. destruct (eff l), (outcomes l); reflexivity.
-  - destruct (k =? 0)%N eqn:E.
-    + apply N.eqb_eq in E. subst k. destruct (eff l), (outcomes l); reflexivity.
-    + apply IH. exact H.
+  rewrite outcomes_app, <- app_assoc. apply IH. exact Hs.
 Qed.
 
 Lemma outcomes_rev evs : outcomes (rev evs) = rev (outcomes evs).
@@ -149,35 +105,23 @@ Proof.
   destruct e; cbn [outcomes app]; rewrite ?app_nil_r; reflexivity.
 Qed.
 
-(* GUARDED (configuration updates allowed): if no update lies among the newest N
-   history rows, the state after an evaluation is the specified function of the
-   evaluation outcomes alone; N is taken from the configuration in force. *)
-Theorem alert_state_window_guarded d evs t m w i cd :
+(* MAIN, all events: after ANY sequence of evaluations, configuration updates and silencing
+   followed by an evaluation, the state is the specified function of the evaluation outcomes
+   alone; N is taken from the configuration in force. *)
+Theorem alert_state_is_function_of_last_N_all_events d evs t m w i cd :
   let a := fst (run d (evs ++ [Eval t m]) (new_alert w i cd)) in
-  let n := (a_window a / a_interval a)%N in
-  no_update_in_window n (rev (evs ++ [Eval t m])) = true ->
-  a_state a = spec_state n (rev (outcomes (evs ++ [Eval t m]))).
+  a_state a = spec_state (a_window a / a_interval a) (rev (outcomes (evs ++ [Eval t m]))).
 Proof.
-  cbn zeta. intros G.
-  destruct (state_after_eval d evs t m w i cd) as (Hs & Hw & Hi). cbn zeta in *.
-  rewrite Hw, Hi in *. rewrite Hs.
-  set (n := (_ / _)%N) in *.
+  cbn zeta. unfold run. rewrite run_from_app.
+  pose proof (run_rows d evs (new_alert w i cd) [] [] (Forall2_nil _)) as Hr.
+  rewrite app_nil_r in Hr.
+  set (a0 := fst (run_from d evs (new_alert w i cd) [])) in *.
+  cbn [run_from step].
+  pose proof (handle_condition_state t m d a0 _ Hr) as H. cbn zeta in H.
+  destruct (handle_condition t m d a0) as [a' s]. cbn [fst] in *.
+  destruct H as (H1 & _ & H3 & H4). rewrite H1, H3, H4.
   rewrite outcomes_app, rev_app_distr. cbn [outcomes rev app].
-  rewrite <- code_state_spec.
-  rewrite rev_app_distr in G. cbn [rev app no_update_in_window] in G.
-  unfold code_state. destruct m; [|reflexivity].
-  destruct (N.eqb_spec n 0); [reflexivity|].
-  destruct (N.eqb_spec n 1); [reflexivity|].
-  rewrite no_update_all_held by exact G.
-  rewrite outcomes_rev. reflexivity.
-Qed.
-
-Lemma evals_no_update l : forallb is_eval l = true -> forall k, no_update_in_window k l = true.
-Proof.
-  induction l as [|e l IH]; intros H k; [destruct k; reflexivity|].
-  cbn [forallb] in H. apply andb_true_iff in H. destruct H as [He Hl].
-  destruct e; try discriminate. cbn [no_update_in_window].
-  destruct (k =? 0)%N; [reflexivity|]. apply IH. exact Hl.
+  rewrite code_state_spec, outcomes_rev. reflexivity.
 Qed.
 
 Lemma run_evals_config d evs : forall a sent, forallb is_eval evs = true ->
@@ -194,28 +138,20 @@ Proof.
   match goal with |- context [if ?c then Some _ else None] => destruct c end; cbn [a_window a_interval] in *; auto.
 Qed.
 
-Lemma forallb_rev {A} (f : A -> bool) l : forallb f (rev l) = forallb f l.
-Proof.
-  induction l as [|x l IH]; [reflexivity|].
-  cbn [rev]. rewrite forallb_app, IH. cbn. rewrite andb_true_r, andb_comm. reflexivity.
-Qed.
-
-(* MAIN: for every sequence of evaluations (any length, any outcomes, any times), the
-   alert's state is the specified function of the outcomes: it depends on the last N only *)
+(* MAIN, evaluations only: for every sequence of evaluations (any length, any outcomes, any times),
+   the alert's state is the specified function of the outcomes: it depends on the last N only *)
 Theorem alert_state_is_function_of_last_N d w i cd evs :
   forallb is_eval evs = true ->
   a_state (fst (run d evs (new_alert w i cd))) = spec_state (w / i) (rev (outcomes evs)).
 Proof.
   intros H.
   destruct evs as [|e0 r0] using rev_ind; [reflexivity|].
+  pose proof H as Hall.
   rewrite forallb_app in H. apply andb_true_iff in H. destruct H as [Hr He].
   cbn [forallb] in He. destruct e0 as [t m| |]; try discriminate.
-  pose proof (alert_state_window_guarded d r0 t m w i cd) as G. cbn zeta in G.
-  assert (Hall : forallb is_eval (r0 ++ [Eval t m]) = true)
-    by (rewrite forallb_app, Hr; reflexivity).
+  pose proof (alert_state_is_function_of_last_N_all_events d r0 t m w i cd) as G. cbn zeta in G.
   destruct (run_evals_config d (r0 ++ [Eval t m]) (new_alert w i cd) [] Hall) as [Hw Hi].
-  unfold run in *. rewrite Hw, Hi in G. cbn [new_alert a_window a_interval] in G.
-  apply G. apply evals_no_update. rewrite forallb_rev. exact Hall.
+  unfold run in *. rewrite Hw, Hi in G. exact G.
 Qed.
 
 (* reading of spec_state: the three clauses of the property text ([os] newest first) *)
@@ -276,18 +212,24 @@ Proof.
   - split; [intros _; eexists; reflexivity|reflexivity].
 Qed.
 
-(* REFUTED full statement with configuration updates: window 2, interval 1:
+(* PRE-FIX documentation: the window check used to read the newest N-1 rows of ANY kind, and a
+   configuration update writes a row with state Inactive: window 2, interval 1:
    T, T, update (same config), T  ->  the last two evaluation outcomes are true, yet Pending *)
 Definition update_witness : list event := [Eval 0 true; Eval 60 true; Update 2 1; Eval 120 true].
 
-Theorem alert_state_update_refuted :
+Theorem prefix_alert_state_update_refuted :
   exists w i cd evs,
-    let a := fst (run true evs (new_alert w i cd)) in
+    let a := run_prefix evs (new_alert w i cd) in
     (a_window a / a_interval a = w / i)%N /\
     a_state a <> spec_state (w / i) (rev (outcomes evs)).
 Proof.
   exists 2%N, 1%N, 0, update_witness. vm_compute. split; [reflexivity|discriminate].
 Qed.
+
+(* the same events on the fixed code *)
+Example update_witness_fixed :
+  a_state (fst (run true update_witness (new_alert 2 1 0))) = Firing.
+Proof. vm_compute. reflexivity. Qed.
 
 (* ------------------------------------------------------------------ *)
 (* 2. notifications                                                    *)
@@ -577,11 +519,6 @@ Theorem normal_notification_lost_refuted :
 Proof. vm_compute. reflexivity. Qed.
 
 (* non-vacuity of the guards *)
-Example window_guard_satisfiable :
-  no_update_in_window 2 (rev [Update 2 1; Eval 0 true; Eval 60 true]) = true /\
-  a_state (fst (run true [Update 2 1; Eval 0 true; Eval 60 true] (new_alert 2 1 0))) = Firing.
-Proof. vm_compute. split; reflexivity. Qed.
-
 Example gates_guard_satisfiable :
   let a := fst (run true [Eval 0 true; Eval 600 false; Eval 660 false] (new_alert 1 1 10)) in
   gates_open (fst (run true [Eval 0 true] (new_alert 1 1 10))) 600 = true /\
